@@ -171,7 +171,13 @@ def create_redist_dict(
   sketches = states[-1]['inner_state']['0']['direction']['1']['sketches']
   layer_names, num_axes = layers_and_axes(sketches)
   group_dict = create_groups(sketches, layer_names)
-  score_dict = score_fn(states, rule, layer_names, running_average)
+  # Plain Python floats: the allocation below keeps a running total of the
+  # remaining scores, and subtracting float32 scores of very different scale
+  # from it cancels catastrophically.
+  score_dict = {
+      name: float(score) for name, score in score_fn(
+          states, rule, layer_names, running_average).items()
+  }
 
   def create_redist():
     res = {}
